@@ -39,6 +39,10 @@ impl Chooser {
     pub fn flag(&mut self, label: &'static str) -> bool {
         self.choose(label, 2) == 1
     }
+    /// the part of the replay prefix not consumed yet
+    pub fn pending_prefix(&self) -> Vec<u32> {
+        self.prefix[self.pos.min(self.prefix.len())..].to_vec()
+    }
     pub fn choices(&self) -> Vec<u32> {
         self.trace.iter().map(|x| x.0).collect()
     }
